@@ -603,7 +603,7 @@ class Engine:
         fr = Frame(fn)
         for i, a in enumerate(args): fr.root(i + 1).val = a
         rpo, back = self.cfg_of(fn)
-        unroll = self.unroll_by_fn.get(fname.split('>::')[-1], self.unroll) if back else 0
+        unroll = self.unroll_by_fn.get(fname, self.unroll_by_fn.get(fname.split('>::')[-1], self.unroll)) if back else 0
         guards = {(0, 0): guard}
         self.depth += 1
         if self.depth > 60: raise Unsupported('call depth > 60 (recursion?) at ' + fname)
